@@ -15,6 +15,7 @@ import LinVerif.Lemmas.C13Zone
 import LinVerif.Lemmas.C13ZoneContract
 import LinVerif.Lemmas.C13Ladder
 import LinVerif.Lemmas.C13Planner
+import LinVerif.Lemmas.C13Goc
 
 namespace LinVerif.Props.C13
 open LinVerif.Calendar LinVerif.Interval
@@ -701,7 +702,90 @@ theorem time_windows_exact (a b : Int) (ha : 0 ≤ a) (hab : a ≤ b) :
     calcTimeWindows .month a b = b / 86400000 - a / 86400000 + 1 :=
   ⟨Lemmas.C13.timeWindows_day ha hab, Lemmas.C13.timeWindows_month ha hab⟩
 
+/-! ## one live segment / family object per timestamp (write path, every interleaving)
+
+`Shard.GetOrCrateDataFamily(t)` = `intervalSegment.GetOrCreateSegment(GetSegment(t))` followed by
+`segment.GetOrCreateDataFamily(t)`: two get-or-creates on maps guarded by a mutex
+(`Model/GetOrCreate.lean`). Any number of writer threads, every schedule of their atomic steps. -/
+
+/-- In the shapes `atomic` (the code as it is: the whole get-or-create is one critical section) and
+`splitRecheck` (open outside the lock, look again before storing), after ANY schedule of the
+writers' atomic steps: the threads still are the writers of the given timestamps, and two writers
+whose timestamps (`≥ 0`) lie in one family — `calcFamilyTime` equal — that have returned hold the
+SAME family object, which is the one registered in the registered segment (what a query or a
+flush resolves). "Every timestamp belongs to exactly one segment and one family" at the level of
+the live objects. -/
+theorem family_object_unique (c : Calc) (vs vf : GocVariant)
+    (hs : Lemmas.C13.GocSafe vs) (hf : Lemmas.C13.GocSafe vf) (ts : List Int) (sched : List Nat) :
+    (gRun vs vf (gInit c ts) sched).threads.map (·.ts) = ts ∧
+    ∀ t1 ∈ (gRun vs vf (gInit c ts) sched).threads, ∀ t2 ∈ (gRun vs vf (gInit c ts) sched).threads,
+      0 ≤ t1.ts → 0 ≤ t2.ts → calcFamilyTime c t1.ts = calcFamilyTime c t2.ts →
+      ∀ a b, t1.famObj = some a → t2.famObj = some b →
+        a = b ∧ gRegistered (gRun vs vf (gInit c ts) sched) t1 = some a := by
+  obtain ⟨inv, hts⟩ := Lemmas.C13.gRun_inv hs hf c sched (gInit c ts) (Lemmas.C13.gInit_inv c ts)
+  refine ⟨hts.trans (Lemmas.C13.gInit_ts c ts), ?_⟩
+  intro t1 m1 t2 m2 h1 h2 hfam a b ha hb
+  obtain ⟨ok1, s1, f1⟩ := inv t1 m1
+  obtain ⟨ok2, s2, f2⟩ := inv t2 m2
+  -- the two requests are the same (segment, family index)
+  have c2 := Lemmas.C13.family_contains c h2
+  rw [← hfam] at c2
+  have eseg : t2.seg = t1.seg := by
+    rw [s1, s2]; exact Lemmas.C13.segment_const_on_family c h1 c2.1 c2.2
+  have efam : t2.fam = t1.fam := by
+    rw [f1, f2, s1, s2]; exact Lemmas.C13.family_index_const_on_family c h1 c2.1 c2.2
+  obtain ⟨so1, e1, l1⟩ := ok1.2 a ha
+  obtain ⟨so2, e2, l2⟩ := ok2.2 b hb
+  have r1 := ok1.1 so1 e1
+  have r2 := ok2.1 so2 e2
+  rw [eseg, r1] at r2
+  have eso : so1 = so2 := Option.some.inj r2
+  subst eso
+  rw [efam, l1] at l2
+  refine ⟨Option.some.inj l2, ?_⟩
+  simp only [gRegistered, r1, l1]
+
+/-- The converse, for the code's shape (both get-or-creates one critical section): writers of
+DIFFERENT families never share a family object — together with `family_object_unique` the live
+family objects correspond one to one to the families written. -/
+theorem family_object_distinct (c : Calc) (ts : List Int) (sched : List Nat) :
+    ∀ t1 ∈ (gRun .atomic .atomic (gInit c ts) sched).threads,
+    ∀ t2 ∈ (gRun .atomic .atomic (gInit c ts) sched).threads,
+      calcFamilyTime c t1.ts ≠ calcFamilyTime c t2.ts →
+      ∀ a b, t1.famObj = some a → t2.famObj = some b → a ≠ b := by
+  have sa : Lemmas.C13.GocSafe .atomic := Or.inl rfl
+  obtain ⟨inv, _⟩ := Lemmas.C13.gRun_inv sa sa c sched (gInit c ts) (Lemmas.C13.gInit_inv c ts)
+  obtain ⟨fresh, _⟩ := Lemmas.C13.gRun_fresh sched (gInit c ts) (Lemmas.C13.gInit_fresh c ts)
+  intro t1 m1 t2 m2 hne a b ha hb hab
+  obtain ⟨ok1, s1, f1⟩ := inv t1 m1
+  obtain ⟨ok2, s2, f2⟩ := inv t2 m2
+  obtain ⟨so1, e1, l1⟩ := ok1.2 a ha
+  obtain ⟨so2, e2, l2⟩ := ok2.2 b hb
+  subst hab
+  have k := fresh.2 _ _ _ l1 l2
+  have kso : so1 = so2 := by have := congrArg Prod.fst k; simpa using this
+  have kfam : t1.fam = t2.fam := congrArg Prod.snd k
+  subst kso
+  have kseg : t1.seg = t2.seg := by
+    have := fresh.2 _ _ _ (ok1.1 so1 e1) (ok2.1 so1 e2)
+    exact congrArg Prod.snd this
+  apply hne
+  simp only [calcFamilyTime]
+  rw [← s1, ← s2, ← f1, ← f2, kseg, kfam]
+
+/-- the families of two writers of one timestamp list are those of the list: the writer threads of
+`ts` request exactly `(CalcSegmentTime t, CalcFamily t)` — the keys are the C13 arithmetic -/
+theorem writer_keys (c : Calc) (ts : List Int) :
+    (gInit c ts).threads.map (fun t => (t.seg, t.fam)) =
+      ts.map (fun t => (calcSegmentTime c t, calcFamily c t (calcSegmentTime c t))) := by
+  simp [gInit, mkThread, Function.comp_def]
+
 /-! ## non-vacuity -/
+
+-- two writers of one hour family, strictly alternating, then drained: one object, registered
+example : let s := gDrain .atomic .atomic (gRun .atomic .atomic (gInit .day [1715851800000, 1715851800001]) [0, 1, 0, 1])
+    s.threads.map (·.famObj) = [some 1, some 1] ∧ s.threads.map (gRegistered s) = [some 1, some 1] ∧
+    s.opened = 1 := by decide
 
 -- 2024-02-29T12:34:56.789Z (leap day): the three calculators
 example : calcFamilyTime .day 1709210096789 = 1709208000000 ∧
@@ -865,6 +949,32 @@ theorem time_windows_bodies :
     C13.yearCalcTimeWindowsBody = ["t1 := time.Unix(start/1000, 0)", "t1 = time.Date(t1.Year(), t1.Month(), 0, 0, 0, 0, 0, time.Local)", "t2 := time.Unix(end/1000, 0)", "t2 = time.Date(t2.Year(), t2.Month(), 0, 0, 0, 0, 0, time.Local)", "return int(t2.Sub(t1).Hours()/24/30) + 1"] :=
   ⟨rfl, rfl, rfl⟩
 
+/-- the four get-or-creates that read and write `intervalSegment.segments` / `segment.families`
+(write path and query path) are each ONE critical section in the current source: mutex.Lock,
+deferred Unlock, lookup, constructor seam, store — the shape `family_object_unique` is applied in
+(`GocSafe .atomic`). Opening the object outside the lock, or storing without the lookup under the
+same lock, selects another shape (or none) and re-opens this obligation. -/
+theorem goc_variant :
+    gocVariantOf "segments" "newSegmentFunc" C13.getOrCreateSegmentEvents = some .atomic ∧
+    gocVariantOf "segments" "newSegmentFunc" C13.getOrLoadSegmentEvents = some .atomic ∧
+    gocVariantOf "families" "newDataFamilyFunc"
+      (gocInline "initDataFamily" C13.initDataFamilyEvents C13.getOrCreateDataFamilyEvents) = some .atomic ∧
+    gocVariantOf "families" "newDataFamilyFunc"
+      (gocInline "initDataFamily" C13.initDataFamilyEvents C13.getOrLoadFamilyEvents) = some .atomic ∧
+    Lemmas.C13.GocSafe .atomic := by
+  refine ⟨by decide, by decide, by decide, by decide, Or.inl rfl⟩
+
+/-- the full event lists (lock / lookup / create / store, every call) of the get-or-create
+functions and the order of the two levels in `shard.GetOrCrateDataFamily` -/
+theorem goc_steps :
+    C13.getOrCreateSegmentEvents = ["Lock", "defer:Unlock", "read:segments", "call:newSegmentFunc", "call:Errorf", "write:segments"] ∧
+    C13.getOrLoadSegmentEvents = ["Lock", "defer:Unlock", "read:segments", "call:newSegmentFunc", "write:segments"] ∧
+    C13.getOrCreateDataFamilyEvents = ["call:Calculator", "call:CalcSegmentTime", "call:Errorf", "call:CalcFamily", "Lock", "defer:Unlock", "read:families", "call:string", "call:Itoa", "call:GetFamily", "call:Sprintf", "call:CreateFamily", "call:Errorf", "call:initDataFamily"] ∧
+    C13.getOrLoadFamilyEvents = ["Lock", "defer:Unlock", "read:families", "call:GetFamily", "call:initDataFamily"] ∧
+    C13.initDataFamilyEvents = ["call:Calculator", "call:CalcFamilyStartTime", "call:CalcFamilyEndTime", "call:newDataFamilyFunc", "write:families"] ∧
+    C13.shardGetOrCrateDataFamilyEvents = ["call:Calculator", "call:GetSegment", "call:GetOrCreateSegment", "call:Yield", "call:Calculator", "call:GetSegment", "call:GetOrCreateSegment", "call:GetOrCreateDataFamily"] :=
+  ⟨rfl, rfl, rfl, rfl, rfl, rfl⟩
+
 end Tie
 
 /-! ## what fix 8adefd6 repaired: the previous variant of `segment.GetDataFamilies`
@@ -967,6 +1077,23 @@ theorem unsorted_duplicate_type_ladder :
     (calcTimeRangeAndInterval ⟨60000, ⟨1709254740000, 1709254803000⟩, false⟩ [10000, 60000, 3600000]).map
       (·.storageInterval) = some 60000 ∧
     resolveByType [10000, 60000, 3600000] (intervalType 60000) = some 10000 := by decide
+
+/-- Why `GetOrCreateSegment` must look up, open and store under ONE lock (or look again before it
+stores): in the shape `splitNoRecheck` — lookup under the lock, `newSegmentFunc` outside, plain
+store — two writers of the same timestamp 2024-05-16T09:30Z that alternate step by step both miss,
+both open a segment object (2 opened), each creates its family in its OWN segment object: they
+hold two different family objects (2 and 3) and only the last stored segment's family (3) is
+registered. `family_object_unique` is false for this shape; the same schedule in `splitRecheck`
+opens two segment objects but both writers end with the one registered family. -/
+theorem unlocked_open_two_families :
+    (let s := gDrain .splitNoRecheck .atomic (gRun .splitNoRecheck .atomic
+        (gInit .day [1715851800000, 1715851800000]) [0, 1, 0, 1, 0, 1, 0, 1])
+     s.threads.map (·.famObj) = [some 2, some 3] ∧ s.threads.map (gRegistered s) = [some 3, some 3] ∧
+       s.opened = 2) ∧
+    (let s := gDrain .splitRecheck .atomic (gRun .splitRecheck .atomic
+        (gInit .day [1715851800000, 1715851800000]) [0, 1, 0, 1, 0, 1, 0, 1])
+     s.threads.map (·.famObj) = [some 2, some 2] ∧ s.threads.map (gRegistered s) = [some 2, some 2] ∧
+       s.opened = 2) := by decide
 
 end Neg
 
